@@ -12,6 +12,7 @@ def Op.plain : Op → Bool
   | .bind => false
   | .endBind => false
   | .raise => false
+  | .sync => false
   | _ => true
 
 /-- the calls one after the other on the core state, without any bind block: what each call
